@@ -50,6 +50,9 @@ func (g *Gen) header() string {
 	// option opaque f g ...: the unit treats these defined prelude functions as uninterpreted (a sound weakening that
 	// keeps large definitions, e.g. modular reductions, out of obligations that only need them as names)
 	for _, fn := range strings.Fields(g.ct.Options["opaque"]) {
+		if g.replayMode {
+			break // replay evaluates concrete inputs: definitions stay transparent
+		}
 		sig, ok := g.eng.prelude.sigs[fn]
 		if !ok {
 			continue
